@@ -269,7 +269,7 @@ def tasks(tier):
     out = []
     for cfg in ([dict(mbl=4), dict(mbl=8, base=0x40)] if tier == "quick" else [dict(mbl=4), dict(mbl=8, base=0x40), dict(mbl=16, width=32, base=0x100)]):
         out.append(dict(fn="av_proof_contract", cfg=cfg, modes=["inductive", "cover", "difftest"], weight=8, difftest_cycles=80))
-    d = 11 if tier == "quick" else 18
+    d = 11 if tier == "quick" else 14
     for cfg in CFGS[:3] if tier == "quick" else CFGS:
         cfg = dict(cfg, depth=d, adr_width=3, mbl=cfg.get("mbl", 2 if tier == "quick" else 4))
         out.append(dict(fn="av_contract", cfg=cfg, modes=["bounded", "cover", "difftest"], depth=d, weight=20,
